@@ -126,13 +126,21 @@ def one_case(c, tmp, i):
     rep = {"engine": engine, "name": name, "chunks": chunks, "dims": dict(ds.sizes),
            "vars": {k: [str(v.dtype), list(v.dims)] for k, v in ds.data_vars.items()},
            "coords": {k: str(v.dtype) for k, v in ds.coords.items()}, "attrs": {k: repr(v) for k, v in orig_attrs.items()}}
-    via = rng.choice(["save_ds", "save_ds", "harvester", "save_merge"])
+    via = rng.choice(["save_ds", "save_ds", "harvester", "save_merge", "harvester-engine-per-call"])
     rep["via"] = via
     try:
         if via == "save_ds":
             xyzpy.save_ds(ds, path, engine=engine)
         elif via == "save_merge":
             xyzpy.save_merge_ds(ds, path, engine=engine)
+        elif via == "harvester-engine-per-call":
+            # a harvester constructed with the OTHER engine; every call names the engine itself
+            other = {"h5netcdf": "joblib", "joblib": "h5netcdf"}[engine]
+            xyzpy.Harvester(None, data_name=path, engine=other).add_ds(ds, engine=engine)
+            h2 = xyzpy.Harvester(None, data_name=path, engine=other)
+            h2.load_full_ds(engine=engine)
+            if h2._full_ds is None:
+                raise RuntimeError("a new Harvester did not load the dataset saved under the per-call engine's name")
         else:
             h = xyzpy.Harvester(None, data_name=path, engine=engine)
             h.add_ds(ds)
